@@ -353,9 +353,14 @@ type bigKey struct {
 
 var bigRef = map[bigKey]uint64{}
 
-func bigLen(k *kase) int64   { return int64(k.Q)<<30 + int64(k.D) }
-func bigA(k *kase) []byte    { return content(k.Content, k.LenA, false) }
-func bigAKey(k *kase) string { return fmt.Sprintf("%s/%d", k.Content, k.LenA) }
+func bigLen(k *kase) int64 { return int64(k.Q)<<30 + int64(k.D) }
+func bigA(k *kase) []byte  { return content(k.Content, k.LenA, false) }
+func bigAKey(k *kase) string {
+	if k.LenA == 0 {
+		return "" // empty first operand: crc(A||B) is the stream from the initial state
+	}
+	return fmt.Sprintf("%s/%d", k.Content, k.LenA)
+}
 
 func crcUpdate(variant int, st uint64, p []byte) uint64 {
 	switch variant {
@@ -370,7 +375,7 @@ func crcUpdate(variant int, st uint64, p []byte) uint64 {
 // streamZeros continues state st over zero bytes and reports the state at
 // every length of lens (ascending).
 func streamZeros(variant int, st uint64, lens []int64) map[int64]uint64 {
-	zeros := make([]byte, 4<<20)
+	zeros := make([]byte, 256<<10)
 	out := map[int64]uint64{}
 	var done int64
 	for _, l := range lens {
